@@ -16,10 +16,11 @@ from .c10 import limit_parts
 
 PROP = "C16"
 THEOREMS = ["C16_reparse_condition", "C16_reparse_part_spec", "C16_reparse_path_spec", "C16_reparse_part_spec_list", "C16_reparse_rule_spec",
+            "C16_reparse_schema_spec_list", "C16_schema_rules_order", "C16_schema_sort_idempotent",
             "C16_parsed_condition_well_formed", "C16_parser_inventory", "C16_parsers_accepted", "C16_analysis_sound", "C16_parsers_leave_the_spec_alone",
             "C16_rejects_in_place_parser"]
 FACT_LEMMAS = ["C16_parsers_accepted is a closed computation on Gen/ParsersGen.v (abstraction of the ten parser bodies, regenerated from source)"]
-DEPENDS = ["Taint.v", "Gen/ParsersGen.v", "Proofs/TaintProof.v", "Properties/C16.v", "Proofs/C16ReparseProof.v", "RunReparse.v",
+DEPENDS = ["Taint.v", "Gen/ParsersGen.v", "Proofs/TaintProof.v", "Properties/C16.v", "Proofs/C16ReparseProof.v", "Proofs/C16SchemaProof.v", "SchemaSpec.v", "RunReparse.v",
            "Eq.v", "Proofs/C14Proof.v", "Proofs/C19Proof.v", "Proofs/PyFacts.v", "Proofs/C04Proof.v", "Py.v", "Lang.v", "Defs.v", "Rule.v", "RuleDefs.v", "Path.v", "Cast.v", "Str.v",
            "Cond.v", "Dsl.v", "Inst.v", "RunSpec.v", "SpecDefs.v", "Gen/TablesGen.v", "Gen/CallablesGen.v", "Gen/SpecGen.v", "Spec.v", "SpecIO.v"]
 SPEC_VO = ["Taint.vo"]
@@ -43,9 +44,9 @@ def snapshot(x, ids):
     return ("object", id(x))
 
 
-IMPORTS = "Py Lang Defs Cond Dsl Check Path Cast Str SpecDefs RuleDefs Rule Spec SpecIO Eq Inst RunSpec RunReparse"
+IMPORTS = "Py Lang Defs Cond Dsl Check Path Cast Str SpecDefs RuleDefs Rule Spec SpecIO Eq Inst RunSpec SchemaSpec RunReparse"
 RUN = {"condition": "run_reparse_cond", "condition(json)": "run_reparse_cond", "part": "run_reparse_part", "path": "run_reparse_path",
-       "part-specs": "run_reparse_part_specs", "rule": "run_reparse_rule"}
+       "part-specs": "run_reparse_part_specs", "rule": "run_reparse_rule", "schema": "run_reparse_schema"}
 
 
 def kcase(kind, parse, spec, cases):
@@ -53,9 +54,16 @@ def kcase(kind, parse, spec, cases):
     the implementation does the same (on private copies)."""
     if cases is None or kind not in RUN or len(repr(spec)) > 3000:
         return
-    out = E.run_outcome(lambda: bool(parse(json_copy(spec)) == parse(json_copy(spec))))
+    if kind == "schema":
+        # the == verdict of two parses, and the path lengths of the rules in the order the schema holds them
+        def twice():
+            a, b = parse(json_copy(spec)), parse(json_copy(spec))
+            return (bool(a == b), [len(r.path) for r in a.rules])
+        out = E.run_outcome(twice)
+    else:
+        out = E.run_outcome(lambda: bool(parse(json_copy(spec)) == parse(json_copy(spec))))
     try:
-        arg = "[" + "; ".join(E.enc_val(x) for x in spec) + "]" if kind == "part-specs" else E.enc_val(spec)
+        arg = "[" + "; ".join(E.enc_val(x) for x in spec) + "]" if kind in ("part-specs", "schema") else E.enc_val(spec)
         model = f"({RUN[kind]} {arg})"
         cases.append(Case({"kind": kind, "spec": repr(spec)[:300], "impl": out[0] + ":" + repr(out[1])[:100], "coq": model[:4000]},
                           model, None, E.enc_res(out), out, out[0] == "ok", key=(kind, repr(spec)[:300])))
@@ -133,6 +141,7 @@ def run(tier, seed, model_ok, spec_ok, replay=None):
     v = valida()
     n = 400 if tier == "quick" else 12000
     viol, cases = [], []
+    recent = []
     dist = Counter()
     # large specs (more distinct plain keys than a default-sized cache holds) with equal keys of different types far apart
     many = [f"k{j}" for j in range(140)]
@@ -196,8 +205,14 @@ def run(tier, seed, model_ok, spec_ok, replay=None):
             elif k < 0.8:
                 rs["doc"] = ["a ", " b"]
             rs2 = [copy.deepcopy(rs), copy.deepcopy(rs)]
+            # a schema list of this rule, earlier rules of the run (paths of other lengths, so that the sort moves them) and a copy
+            rs3 = [copy.deepcopy(x) for x in g.r.sample(recent, min(len(recent), g.r.choice([0, 1, 2, 3])))] + rs2[:g.r.choice([1, 2])]
+            g.r.shuffle(rs3)
+            recent.append(copy.deepcopy(rs))
+            del recent[:-8]
             check("rule", v.Rule.from_spec, rs, viol, dist, cases)
-            check("schema", v.Schema.from_json_like, rs2, viol, dist)
+            check("schema", v.Schema.from_json_like, rs2, viol, dist, cases)
+            check("schema", lambda sp: v.Schema(v.Schema.init_rules(sp)), rs3, viol, dist, cases)
     k_bad, o_bad, nk, no, err = run_passes("c16", IMPORTS, cases, model_ok, spec_ok)
     total = sum(dist.values())
     res = {"evaluations": total + len(cases), "k_cases": nk, "o_cases": total, "nontrivial": sum(c for k, c in dist.items() if k.endswith(":ok")),
